@@ -142,6 +142,47 @@ impl<KT: DbMapKeyType> FileDbXxxInner<KT> {
 // delete: NEW
 impl<KT: DbMapKeyType> FileDbXxxInner<KT> {}
 
+// relink: a key piece that does not fit its slot any more is moved by write_piece.
+impl<KT: DbMapKeyType> FileDbXxxInner<KT> {
+    /// returns the offset of the key piece linking to `key_offset` in the
+    /// bucket chain of `hash`, or zero if the bucket links to it.
+    fn find_prev_key_offset(
+        &mut self,
+        hash: HashValue,
+        key_offset: KeyPieceOffset,
+    ) -> Result<KeyPieceOffset> {
+        let mut prev_offset = KeyPieceOffset::new(0);
+        let mut offset = self.htx_file.read_key_piece_offset(hash)?;
+        while offset != key_offset && !offset.is_zero() {
+            prev_offset = offset;
+            offset = self.key_file.read_piece(offset)?.bucket_next_offset;
+        }
+        Ok(prev_offset)
+    }
+    /// A key piece of the bucket chain of `hash` has moved to `new_offset`.
+    /// `prev_offset` is the piece linking to it (zero: the bucket itself).
+    /// Rewriting the link may move that piece too, so walk towards the bucket.
+    fn relink_moved_key_piece(
+        &mut self,
+        hash: HashValue,
+        mut prev_offset: KeyPieceOffset,
+        mut new_offset: KeyPieceOffset,
+    ) -> Result<()> {
+        while !prev_offset.is_zero() {
+            let mut prev_piece = self.key_file.read_piece(prev_offset)?;
+            prev_piece.bucket_next_offset = new_offset;
+            let new_prev_piece = self.key_file.write_piece(prev_piece)?;
+            if new_prev_piece.offset == prev_offset {
+                return Ok(());
+            }
+            let prev_prev_offset = self.find_prev_key_offset(hash, prev_offset)?;
+            new_offset = new_prev_piece.offset;
+            prev_offset = prev_prev_offset;
+        }
+        self.htx_file.write_key_piece_offset(hash, new_offset)
+    }
+}
+
 // find: NEW
 impl<KT: DbMapKeyType> FileDbXxxInner<KT> {
     fn find_in_hash_buckets_kt(
@@ -250,7 +291,9 @@ impl<KT: DbMapKeyType> DbXxxObjectSafe<KT> for FileDbXxxInner<KT> {
         if let Some((key_offset, _prev_key_offset)) = opt {
             let new_key_offset = self.store_value_on_insert(key_offset, value)?;
             if key_offset != new_key_offset {
-                unimplemented!("key_offset != new_key_offset : in put_kt");
+                _cold();
+                // the key piece has moved: change the link to it.
+                self.relink_moved_key_piece(hash, _prev_key_offset, new_key_offset)?;
             }
         } else {
             _cold();
@@ -288,7 +331,9 @@ impl<KT: DbMapKeyType> DbXxxObjectSafe<KT> for FileDbXxxInner<KT> {
                 let new_prev_key = self.key_file.write_piece(prev_key_piece)?;
                 if _prev_key_offset != new_prev_key.offset {
                     _cold();
-                    panic!("_prev_key_offset != new_prev_key_offset : in del_kt");
+                    // the previous key piece has moved: change the link to it.
+                    let prev_prev_offset = self.find_prev_key_offset(hash, _prev_key_offset)?;
+                    self.relink_moved_key_piece(hash, prev_prev_offset, new_prev_key.offset)?;
                 }
             }
             //
